@@ -238,6 +238,41 @@ let run_case op kv : string * string =
         | Some p -> ("Panic:" ^ fmt_panic p, "-")
         | None -> (String.concat ";" (List.rev !outs), "-"))
      | Panic p, _ | _, Panic p -> ("Panic:" ^ fmt_panic p, "-"))
+  | "alloc" ->
+    let x = bytes kv "x" and h = bytes kv "h" in
+    let a = nat_of_int (num kv "a") in
+    let ar = arch_of (get kv "cpu") in
+    let cfg = if get kv "cfg" = "none" then PNone else PAuto in
+    let b1 = (match x with b :: _ -> b | [] -> N0) in
+    let b2 = (match x with _ :: b :: _ -> b | _ -> n_of_int 1) in
+    let b3 = (match x with _ :: _ :: b :: _ -> b | _ -> n_of_int 2) in
+    let top = x86_choice (match get kv "cpu" with "sse2" -> Sse2Only | "none" -> NoSimd | _ -> HasAvx2) in
+    let cnt t = string_of_int (count_allocs t) in
+    (match get kv "what" with
+     | "memchr" -> let (_, t) = backend_find [b1] a h top in (cnt t, "-")
+     | "memrchr" -> let (_, t) = backend_rfind [b1] a h top in (cnt t, "-")
+     | "memchr2" -> let (_, t) = backend_find [b1; b2] a h top in (cnt t, "-")
+     | "memrchr2" -> let (_, t) = backend_rfind [b1; b2] a h top in (cnt t, "-")
+     | "memchr3" -> let (_, t) = backend_find [b1; b2; b3] a h top in (cnt t, "-")
+     | "memrchr3" -> let (_, t) = backend_rfind [b1; b2; b3] a h top in (cnt t, "-")
+     | "mm_find" -> let (_, t) = memmem_find ar a h x in (cnt t, "-")
+     | "mm_rfind" -> let (_, t) = memmem_rfind ar a h x in (cnt t, "-")
+     | "finder_new_find" ->
+       let (f, t1) = finder_new cfg (ranker (get kv "rank")) ar x in
+       (match f with Ok f -> let (_, t2) = finder_find ar f a h in
+                       let (_, t3) = fiter_run ar f a h (nat_of_int (List.length h + 2)) fiter_new in
+                       (cnt (t1 @ t2 @ t3), "-")
+                   | Panic p -> ("Panic:" ^ fmt_panic p, "-"))
+     | "rfinder_new_rfind" ->
+       let (f, t1) = rfinder_new x in
+       (match f with Ok f -> let (_, t2) = rfinder_rfind ar f a h in (cnt (t1 @ t2), "-")
+                   | Panic p -> ("Panic:" ^ fmt_panic p, "-"))
+     | "shiftor_new" -> let (_, t) = so_new x in (cnt t, "-")
+     | "shiftor_find" ->
+       (match so_new x with
+        | (Ok (Some f), _) -> let (_, t) = so_find f h in (cnt t, "-")
+        | _ -> ("0", "-"))
+     | _ -> ("n/a", "-"))
   | "prestate" ->
     let st0 = { ps_skips = n_of_int (num kv "skips"); ps_skipped = n_of_int (num kv "skipped") } in
     let ops = List.filter (fun s -> s <> "") (String.split_on_char ',' (get kv "ops")) in
